@@ -105,6 +105,7 @@ func WriteFile(fromFile io.Reader, to string, mode os.FileMode) error {
 	if _, err := io.Copy(tempFile, fromFile); err != nil {
 		return err
 	}
+	verifWriteFileOp("close", to)
 	if err := tempFile.Close(); err != nil {
 		return err
 	}
@@ -138,8 +139,10 @@ func IsPackage(buildFileNames []string, name string) bool {
 // Try to gracefully rename the file as the os.Rename does not work across
 // filesystems and on most Linux systems /tmp is mounted as tmpfs
 func renameFile(from, to string) (err error) {
+	verifWriteFileOp("rename", to)
 	err = os.Rename(from, to)
 	if err == nil {
+		verifWriteFileOp("renamed", to)
 		return nil
 	}
 	err = copyFile(from, to)
